@@ -1249,3 +1249,455 @@ Proof.
     + cbn [st_dns kill_state]. rewrite Hd3. reflexivity.
     + cbn [st_node_ns kill_state]. rewrite Hn3. reflexivity.
 Qed.
+
+Lemma rename_good s T i o q' (fk : qname -> qname) :
+  Wf s T -> nth_error T i = Some o ->
+  (forall q, nth_error (st_objs s) o = Some (Live q) -> plainq q' = true /\ fk (norm (st_dns s) q) = norm (st_dns s) q') ->
+  rename_safe s T o q' = true ->
+  Good ((fst (set_new_key s o q'), T), snd (set_new_key s o q'))
+       (fun _ => match abs_obj (st_dns s) (obj_at s o) with
+                 | VLive k => d_rename (abs_sys (s, T)) i k (fk k)
+                 | VDead _ => (abs_sys (s, T), RUnspec)
+                 end).
+Proof.
+  intros W Hi Hfk Hsafe. unfold Good. cbn [fst snd].
+  destruct (view_cases s T o W (nth_error_In _ _ Hi)) as [[q [v [Hl [Hp [Hc Hv]]]]]|[v [q Hd]]].
+  - rewrite (obj_at_nth s o _ Hl). cbn [abs_obj]. destruct (Hfk q Hl) as [Hq' ->].
+    unfold rename_safe in Hsafe. rewrite Hl in Hsafe. unfold d_rename.
+    destruct (qname_eqb q q') eqn:E.
+    + apply qname_eqb_eq in E. subst q'. unfold set_new_key. rewrite Hl. cbn [oq]. rewrite qname_eqb_refl.
+      cbn [fst snd]. rewrite qname_eqb_refl. split; [exact W|]. eexists. split; [reflexivity|apply out_agrees_refl].
+    + apply andb_true_iff in Hsafe. destruct Hsafe as [Hse Hns]. apply negb_true_iff in Hse.
+      unfold same_entry in Hse. rewrite Hse.
+      assert (norm (st_dns s) q <> norm (st_dns s) q') as Hne.
+      { intros H. rewrite H, qname_eqb_refl in Hse. discriminate. }
+      destruct (rename_main s T i o q q' v W Hi Hl Hp Hv Hq' Hne (no_stale_prop _ _ _ _ Hns)) as [F [-> [WF Hab]]].
+      cbn [fst snd]. split; [exact WF|].
+      assert (dget (d_dict (abs_sys (s, T))) (norm (st_dns s) q) = Some v) as Hg.
+      { rewrite abs_sys_eq. cbn [d_dict]. rewrite (abs_get (st_dns s) (st_store s) q (wf_keys s T W) Hp).
+        fold (skey s q). exact Hv. }
+      rewrite Hg. eexists. split; [|apply out_agrees_refl]. rewrite Hab. reflexivity.
+  - rewrite (obj_at_nth s o _ Hd). cbn [abs_obj]. unfold set_new_key. rewrite Hd. cbn [oq].
+    destruct (qname_eqb q q'); cbn [fst snd]; (split; [exact W|]); eexists; (split; [reflexivity|left; reflexivity]).
+Qed.
+
+(* answers that are never an object *)
+Lemma obj_value_not_obj s o i : obj_value s o <> RObj i.
+Proof.
+  unfold obj_value. destruct (nth_error (st_objs s) o) as [[q|v q]|]; try discriminate.
+  destruct (aget str_eqb (st_store s) (skey s q)); discriminate.
+Qed.
+Lemma delitem_not_obj s q i : snd (delitem_q s q) <> RObj i.
+Proof.
+  unfold delitem_q. destruct (contains_q s q); [|cbn; discriminate].
+  destruct (getitem_q s q) as [s1 r]. destruct r; cbn; try discriminate.
+  pose proof (obj_value_not_obj s1 o) as H.
+  destruct (obj_value s1 o); cbn; try discriminate; try (exfalso; eapply H; reflexivity).
+  destruct (nth_error (st_objs s1) o); cbn; discriminate.
+Qed.
+Lemma set_new_key_not_obj s o q' i : snd (set_new_key s o q') <> RObj i.
+Proof.
+  unfold set_new_key. destruct (nth_error (st_objs s) o) as [x|]; [|cbn; discriminate].
+  destruct (qname_eqb (oq x) q'); [cbn; discriminate|]. destruct x as [q|v q]; [|cbn; discriminate].
+  pose proof (obj_value_not_obj s o) as H.
+  destruct (obj_value s o) eqn:E; cbn; try discriminate; try (exfalso; eapply H; reflexivity).
+  match goal with |- context [delitem_q ?a ?b] => pose proof (delitem_not_obj a b) as Hd; destruct (delitem_q a b) as [s3 r] end.
+  cbn in Hd. destruct r; cbn; try discriminate. exact (Hd i).
+Qed.
+Lemma update_not_obj s l i : snd (update_l s l) <> RObj i.
+Proof.
+  revert s. induction l as [|[a v] r IH]; intros s; cbn; [discriminate|].
+  destruct (resolve s a) as [q|e|e|]; cbn; try discriminate. apply IH.
+Qed.
+Lemma obj_set_value_not_obj s o v i : snd (obj_set_value s o v) <> RObj i.
+Proof. unfold obj_set_value. destruct (nth_error (st_objs s) o) as [[q|v0 q]|]; cbn; discriminate. Qed.
+
+Lemma finish_nonobj T p : (forall i, snd p <> RObj i) -> finish T p = ((fst p, T), snd p).
+Proof. destruct p as [s r]. cbn. intros H. destruct r; try reflexivity. exfalso. exact (H o eq_refl). Qed.
+
+Lemma sys_step_eq s T x :
+  sys_step (s, T) x = match retarget T x with None => ((s, T), RUnspec) | Some x' => finish T (astep s x') end.
+Proof. reflexivity. Qed.
+
+Lemma ltb_nth {A} (T : list A) i : Nat.ltb i (length T) = true -> exists o, nth_error T i = Some o.
+Proof.
+  intros H. apply Nat.ltb_lt in H. destruct (nth_error T i) as [o|] eqn:E; [exists o; reflexivity|].
+  apply nth_error_None in E. lia.
+Qed.
+
+(* ------------------------------------------------------------------------------------------ *)
+(* every operation                                                                              *)
+Theorem step_refines s T x :
+  Wf s T -> step_safe (s, T) x = true -> Good (sys_step (s, T) x) (dict_step (abs_sys (s, T)) x).
+Proof.
+  intros W Hs. rewrite sys_step_eq.
+  assert (forall a, acc_wf (st_node_ns s) a = true ->
+            Good (finish T (with_q s a (getitem_q s))) (fun h => with_k (abs_sys (s, T)) a (fun k => d_get (abs_sys (s, T)) k h))) as Hget.
+  { intros a Ha. destruct (acc_wf_some _ a Ha) as [q [Hq Hp]].
+    rewrite (with_q_some s a q _ Hq). unfold Good. rewrite (with_k_some s T a q _ Hq). apply get_good; assumption. }
+  assert (forall a v, acc_wf (st_node_ns s) a = true ->
+            Good (finish T (with_q s a (fun q => (setitem_q s q v, RNone))))
+                 (fun _ => with_k (abs_sys (s, T)) a (fun k => (with_dict (abs_sys (s, T)) (dset (d_dict (abs_sys (s, T))) k v), RNone)))) as Hset.
+  { intros a v Ha. destruct (acc_wf_some _ a Ha) as [q [Hq Hp]].
+    rewrite (with_q_some s a q _ Hq). unfold Good. rewrite (with_k_some s T a q _ Hq). cbn [finish].
+    apply set_good; assumption. }
+  assert (forall a, match acc_q (st_node_ns s) a with
+                    | Some q => (plainq q && (negb (contains_q s q) || no_stale s T q None))%bool
+                    | None => false end = true ->
+            Good (finish T (with_q s a (delitem_q s))) (fun _ => with_k (abs_sys (s, T)) a (d_del (abs_sys (s, T))))) as Hdel.
+  { intros a Ha. destruct (acc_q (st_node_ns s) a) as [q|] eqn:Hq; [|discriminate].
+    apply andb_true_iff in Ha. destruct Ha as [Hp Hst].
+    rewrite (with_q_some s a q _ Hq). unfold Good. rewrite (with_k_some s T a q _ Hq).
+    rewrite finish_nonobj by (intros i; apply delitem_not_obj).
+    apply del_good; [exact W|exact Hp|]. apply orb_true_iff in Hst. destruct Hst as [H|H].
+    - left. apply negb_true_iff in H. exact H.
+    - right. apply no_stale_prop. exact H. }
+  assert (forall a, acc_wf (st_node_ns s) a = true ->
+            Good (finish T (with_q s a (fun q => (s, RBool (contains_q s q)))))
+                 (fun _ => with_k (abs_sys (s, T)) a (fun k => (abs_sys (s, T), RBool (dhas (d_dict (abs_sys (s, T))) k))))) as Hcon.
+  { intros a Ha. destruct (acc_wf_some _ a Ha) as [q [Hq Hp]].
+    rewrite (with_q_some s a q _ Hq). unfold Good. rewrite (with_k_some s T a q _ Hq). cbn [finish fst snd].
+    split; [exact W|]. rewrite abs_sys_eq. cbn [d_dict]. rewrite (contains_abs s T q W Hp).
+    eexists. split; [reflexivity|apply out_agrees_refl]. }
+  destruct x; cbn [retarget astep dict_step step_safe] in *.
+  - apply Hget. exact Hs.
+  - apply Hset. exact Hs.
+  - apply Hdel. exact Hs.
+  - apply Hcon. exact Hs.
+  - (* iter *) cbn [finish]. rewrite (iter_good s T W). cbn [finish]. unfold Good. cbn [fst snd].
+    split; [exact W|]. eexists. split; [reflexivity|apply out_agrees_refl].
+  - (* len *) cbn [finish]. unfold Good. cbn [fst snd]. split; [exact W|].
+    eexists. split; [reflexivity|]. right. f_equal. apply abs_store_length.
+  - (* pop *) destruct (acc_q (st_node_ns s) a) as [q|] eqn:Hq; [|discriminate].
+    apply andb_true_iff in Hs. destruct Hs as [Hp Hst].
+    rewrite (with_q_some s a q _ Hq). unfold Good. cbn [dict_step]. rewrite (with_k_some s T a q _ Hq).
+    apply pop_good; [exact W|exact Hp|]. apply orb_true_iff in Hst. destruct Hst as [H|H].
+    + left. apply negb_true_iff in H. exact H.
+    + right. apply no_stale_prop. exact H.
+  - (* update *) rewrite finish_nonobj by (intros i; apply update_not_obj). apply update_good; assumption.
+  - apply Hget. exact Hs.
+  - apply Hset. exact Hs.
+  - apply Hdel. exact Hs.
+  - apply Hcon. exact Hs.
+  - (* value *) destruct (ltb_nth T o Hs) as [c Hc]. rewrite Hc. cbn [option_map astep].
+    rewrite finish_nonobj by (intros i; apply obj_value_not_obj). cbn [fst snd].
+    apply (value_good s T o c W Hc).
+  - (* set value *) destruct (ltb_nth T o Hs) as [c Hc]. rewrite Hc. cbn [option_map astep].
+    rewrite finish_nonobj by (intros i; apply obj_set_value_not_obj).
+    apply (setvalue_good s T o c v W Hc).
+  - (* local name *) destruct (nth_error T o) as [c|] eqn:Hc; [|discriminate]. cbn [option_map astep].
+    apply andb_true_iff in Hs. destruct Hs as [Hn Hsafe].
+    pose proof (wf_views s T W c (nth_error_In _ _ Hc)) as Hv. unfold view_ok in Hv.
+    destruct (nth_error (st_objs s) c) as [x|] eqn:Hx; [|discriminate].
+    rewrite (obj_at_nth s c x Hx) in Hsafe.
+    rewrite finish_nonobj by (intros i; apply set_new_key_not_obj).
+    assert (forall h, dict_step (abs_sys (s, T)) (OSetLocal o name) h =
+                      match abs_obj (st_dns s) (obj_at s c) with
+                      | VLive k => d_rename (abs_sys (s, T)) o k (fst k, name)
+                      | VDead _ => (abs_sys (s, T), RUnspec)
+                      end) as Hspec.
+    { intros h. cbn [dict_step]. rewrite abs_sys_eq. cbn [d_views]. rewrite (absv_nth s T o c Hc).
+      destruct (abs_obj (st_dns s) (obj_at s c)); reflexivity. }
+    unfold Good. rewrite Hspec.
+    apply (rename_good s T o c (fst (oq x), name) (fun k => (fst k, name)) W Hc); [|exact Hsafe].
+    intros q Hq. assert (x = Live q) as -> by (rewrite Hx in Hq; inversion Hq; reflexivity). cbn [oq]. apply andb_true_iff in Hv. destruct Hv as [Hp _].
+    unfold plainq in *. cbn [fst snd]. apply andb_true_iff in Hp. destruct Hp as [Hp1 _]. rewrite Hp1, Hn.
+    split; reflexivity.
+  - (* namespace *) destruct (nth_error T o) as [c|] eqn:Hc; [|discriminate]. cbn [option_map astep].
+    apply andb_true_iff in Hs. destruct Hs as [Hn Hsafe].
+    pose proof (wf_views s T W c (nth_error_In _ _ Hc)) as Hv. unfold view_ok in Hv.
+    destruct (nth_error (st_objs s) c) as [x|] eqn:Hx; [|discriminate].
+    rewrite (obj_at_nth s c x Hx) in Hsafe.
+    rewrite finish_nonobj by (intros i; apply set_new_key_not_obj).
+    assert (forall h, dict_step (abs_sys (s, T)) (OSetNs o ns) h =
+                      match abs_obj (st_dns s) (obj_at s c) with
+                      | VLive k => d_rename (abs_sys (s, T)) o k (norm (st_dns s) (ns, snd k))
+                      | VDead _ => (abs_sys (s, T), RUnspec)
+                      end) as Hspec.
+    { intros h. cbn [dict_step]. rewrite abs_sys_eq. cbn [d_views d_dns]. rewrite (absv_nth s T o c Hc).
+      destruct (abs_obj (st_dns s) (obj_at s c)); reflexivity. }
+    unfold Good. rewrite Hspec.
+    apply (rename_good s T o c (ns, snd (oq x)) (fun k => norm (st_dns s) (ns, snd k)) W Hc); [|exact Hsafe].
+    intros q Hq. assert (x = Live q) as -> by (rewrite Hx in Hq; inversion Hq; reflexivity). cbn [oq]. apply andb_true_iff in Hv. destruct Hv as [Hp _].
+    unfold plainq in *. cbn [fst snd]. apply andb_true_iff in Hp. destruct Hp as [_ Hp2]. rewrite Hp2, Hn.
+    split; reflexivity.
+Qed.
+
+(* ------------------------------------------------------------------------------------------ *)
+(* every sequence of operations                                                                 *)
+Theorem run_refines l : forall y,
+  Wf (fst y) (snd y) -> run_safe y l = true ->
+  Wf (fst (fst (sys_run y l))) (snd (fst (sys_run y l))) /\
+  exists souts, dict_run (abs_sys y) l (snd (sys_run y l)) = (abs_sys (fst (sys_run y l)), souts) /\
+                Forall2 out_agrees souts (snd (sys_run y l)).
+Proof.
+  induction l as [|x r IH]; intros [s T] W Hs.
+  - cbn. split; [exact W|]. exists []. split; [reflexivity|constructor].
+  - cbn [run_safe] in Hs. apply andb_true_iff in Hs. destruct Hs as [Hx Hr].
+    pose proof (step_refines s T x W Hx) as G. unfold Good in G.
+    cbn [sys_run]. destruct (sys_step (s, T) x) as [y1 o] eqn:E1. cbn [fst snd] in G, Hr.
+    destruct G as [W1 [r' [Hd Ha]]].
+    specialize (IH y1 W1 Hr). destruct (sys_run y1 r) as [y2 os] eqn:E2. cbn [fst snd] in IH |- *.
+    destruct IH as [W2 [souts [Hrun Hall]]]. split; [exact W2|].
+    cbn [dict_run]. rewrite Hd, Hrun. exists (r' :: souts). split; [reflexivity|constructor; assumption].
+Qed.
+
+(* the three ways of naming an attribute *)
+Lemma accessors_same s ns name :
+  plain ns = true ->
+  resolve s (AStr (LBRACE :: ns ++ RBRACE :: name)) = Ok (ns, name) /\
+  resolve s (APair (Some ns) name) = Ok (ns, name) /\
+  (plain name = true ->
+   resolve s (AStr name) = Ok (st_node_ns s, name) /\ resolve s (APair None name) = Ok (st_node_ns s, name)).
+Proof.
+  intros Hns. split; [|split].
+  - cbn [resolve]. rewrite decon_spec, (spec_clark_braced ns name Hns). reflexivity.
+  - reflexivity.
+  - intros Hn. split; [|reflexivity]. cbn [resolve]. rewrite decon_spec, (spec_clark_plain name Hn). reflexivity.
+Qed.
+
+Lemma astep_resolve s a1 a2 :
+  resolve s a1 = resolve s a2 ->
+  astep s (OGet a1) = astep s (OGet a2) /\ (forall v, astep s (OSet a1 v) = astep s (OSet a2 v)) /\
+  astep s (ODel a1) = astep s (ODel a2) /\ astep s (OContains a1) = astep s (OContains a2) /\
+  astep s (OPop a1) = astep s (OPop a2) /\
+  astep s (ONodeGet a1) = astep s (ONodeGet a2) /\ (forall v, astep s (ONodeSet a1 v) = astep s (ONodeSet a2 v)) /\
+  astep s (ONodeDel a1) = astep s (ONodeDel a2) /\ astep s (ONodeContains a1) = astep s (ONodeContains a2).
+Proof. intros H. cbn [astep]. unfold with_q. rewrite H. repeat split. Qed.
+
+(* "no namespace" and the default namespace in scope reach the same store entry *)
+Lemma alias_same_entry dns name : etree_key dns ([], name) = etree_key dns (dns, name).
+Proof. unfold etree_key. cbn [fst snd null negb andb]. rewrite str_eqb_refl. rewrite andb_false_r. reflexivity. Qed.
+
+(* ------------------------------------------------------------------------------------------ *)
+(* the statements in terms of the decidable well-formedness                                     *)
+Definition step_ok (y : sys) (x : op) : Prop :=
+  sys_wf (fst (sys_step y x)) = true /\
+  exists r', dict_step (abs_sys y) x (hint_of (snd (sys_step y x))) = (abs_sys (fst (sys_step y x)), r') /\
+             out_agrees r' (snd (sys_step y x)).
+
+Theorem refines_all y x : sys_wf y = true -> step_safe y x = true -> step_ok y x.
+Proof.
+  intros W Hs. apply sys_wf_iff in W. destruct y as [s T]. cbn [fst snd] in W.
+  destruct (step_refines s T x W Hs) as [W' H]. split; [|exact H]. apply sys_wf_iff. exact W'.
+Qed.
+
+Definition run_ok (y : sys) (l : list op) : Prop :=
+  sys_wf (fst (sys_run y l)) = true /\
+  exists souts, dict_run (abs_sys y) l (snd (sys_run y l)) = (abs_sys (fst (sys_run y l)), souts) /\
+                Forall2 out_agrees souts (snd (sys_run y l)).
+
+Theorem refines_run_all y l : sys_wf y = true -> run_safe y l = true -> run_ok y l.
+Proof.
+  intros W Hs. apply sys_wf_iff in W. destruct (run_refines l y W Hs) as [W' H].
+  split; [|exact H]. apply sys_wf_iff. exact W'.
+Qed.
+
+(* a run on which the implementation's answers (as modelled) contradict the dictionary *)
+Definition run_disagrees (y : sys) (l : list op) : Prop :=
+  exists i a b, nth_error (snd (dict_run (abs_sys y) l (snd (sys_run y l)))) i = Some a /\
+                nth_error (snd (sys_run y l)) i = Some b /\ a <> RUnspec /\ a <> b.
+
+Lemma disagrees_not_ok y l : run_disagrees y l -> ~ run_ok y l.
+Proof.
+  intros [i [a [b [Ha [Hb [Hu Hab]]]]]] [_ [souts [Hrun Hall]]]. rewrite Hrun in Ha. cbn [snd] in Ha.
+  clear Hrun. revert i Ha Hb. induction Hall as [|x z xs zs Hxz Hall IH]; intros [|i] Ha Hb; cbn in *; try discriminate.
+  - inversion Ha. inversion Hb. subst. destruct Hxz as [H|H]; contradiction.
+  - exact (IH i Ha Hb).
+Qed.
+
+(* ------------------------------------------------------------------------------------------ *)
+(* equality of two attribute collections                                                        *)
+Lemma etree_key_present dns k : skey_ok dns k = true -> etree_key dns (present dns k) = k.
+Proof.
+  unfold skey_ok, skey_shape, collides. rewrite present_spec.
+  destruct (spec_clark k) as [[[ns|] n]|] eqn:E; [| |discriminate]; apply spec_clark_inv in E; subst k.
+  - rewrite !andb_true_iff, !negb_true_iff. intros [[[Hn _] _] Hc]. unfold etree_key. cbn [fst snd].
+    rewrite Hn, Hc. reflexivity.
+  - intros _. unfold etree_key. cbn [fst snd]. rewrite str_eqb_refl, andb_false_r. reflexivity.
+Qed.
+
+Lemma plainq_present dns k : plain dns = true -> skey_ok dns k = true -> plainq (present dns k) = true.
+Proof.
+  intros Hd. unfold skey_ok, skey_shape, plainq. rewrite present_spec.
+  destruct (spec_clark k) as [[[ns|] n]|]; [| |discriminate]; cbn [fst snd]; rewrite !andb_true_iff.
+  - intros [[[_ H1] H2] _]. auto.
+  - intros [H _]. auto.
+Qed.
+
+Lemma norm_present dns k : skey_ok dns k = true -> norm dns (present dns k) = present dns k.
+Proof.
+  unfold skey_ok, skey_shape, norm. rewrite present_spec.
+  destruct (spec_clark k) as [[[ns|] n]|]; [| |discriminate]; cbn [fst snd].
+  - rewrite !andb_true_iff, !negb_true_iff. intros [[[Hn _] _] _]. rewrite Hn. reflexivity.
+  - intros _. destruct (null dns); reflexivity.
+Qed.
+
+Definition eq_chk (d2 : dict) (kv : qname * str) : bool :=
+  match dget d2 (fst kv) with Some v => str_eqb (snd kv) v | None => false end.
+
+Lemma eq_items_spec s1 s2 l :
+  st_dns s2 = st_dns s1 -> plain (st_dns s1) = true ->
+  Forall (fun k => skey_ok (st_dns s1) k = true) (map fst (st_store s2)) ->
+  (forall k v, In (k, v) l -> aget str_eqb (st_store s1) k = Some v /\ skey_ok (st_dns s1) k = true) ->
+  eq_items s1 s2 (map fst l) = RBool (forallb (eq_chk (abs_store (st_dns s1) (st_store s2))) (abs_store (st_dns s1) l)).
+Proof.
+  intros Hd Hp Hk2. induction l as [|[k v] r IH]; intros Hl; [reflexivity|].
+  destruct (Hl k v (or_introl eq_refl)) as [Hv Hok].
+  cbn [map fst eq_items abs_store forallb snd]. unfold eq_item, eq_chk at 1. cbn [fst snd].
+  unfold skey at 1. rewrite (etree_key_present _ k Hok), Hv.
+  unfold skey. rewrite Hd.
+  rewrite <- (abs_get (st_dns s1) (st_store s2) (present (st_dns s1) k) Hk2 (plainq_present _ k Hp Hok)).
+  rewrite (norm_present _ k Hok).
+  destruct (dget (abs_store (st_dns s1) (st_store s2)) (present (st_dns s1) k)) as [v2|]; [|reflexivity].
+  destruct (str_eqb v v2); [|reflexivity]. cbn [andb]. apply IH. intros k' v' Hin. apply Hl. right. exact Hin.
+Qed.
+
+Lemma attrs_eq_spec s1 s2 :
+  Wf s1 [] -> Wf s2 [] -> st_dns s2 = st_dns s1 ->
+  attrs_eq s1 s2 = RBool (dict_eqb (abs_store (st_dns s1) (st_store s1)) (abs_store (st_dns s2) (st_store s2))).
+Proof.
+  intros W1 W2 Hd. unfold attrs_eq, dict_eqb. rewrite !abs_store_length.
+  destruct (Nat.eqb (length (st_store s1)) (length (st_store s2))); [|reflexivity]. cbn [andb].
+  assert (forallb decon_ok (map fst (st_store s1)) = true) as H.
+  { apply forallb_forall. intros k Hk. pose proof (wf_keys s1 [] W1) as Hf. rewrite Forall_forall in Hf.
+    apply (skey_ok_decon (st_dns s1)). exact (Hf k Hk). }
+  rewrite H, Hd. apply eq_items_spec; [exact Hd|apply (wf_dns s1 [] W1)| |].
+  - rewrite <- Hd. apply (wf_keys s2 [] W2).
+  - intros k v Hin. split.
+    + apply (in_aget_nodup str_eqb str_eqb_eq _ _ _ (wf_nodup s1 [] W1) Hin).
+    + pose proof (wf_keys s1 [] W1) as Hf. rewrite Forall_forall in Hf. apply Hf. apply (in_map fst) in Hin. exact Hin.
+Qed.
+
+Lemma dict_eqb_iff d1 d2 :
+  NoDup (map fst d1) -> NoDup (map fst d2) -> (dict_eqb d1 d2 = true <-> dict_equiv d1 d2).
+Proof.
+  intros N1 N2. unfold dict_eqb, dict_equiv. rewrite andb_true_iff, forallb_forall, Nat.eqb_eq. split.
+  - intros [Hlen Hall] k.
+    assert (forall k v, In (k, v) d1 -> dget d2 k = Some v) as Hin.
+    { intros k' v' Hi. specialize (Hall (k', v') Hi). cbn in Hall. destruct (dget d2 k') as [w|]; [|discriminate].
+      apply str_eqb_eq in Hall. subst. reflexivity. }
+    destruct (dget d1 k) as [v|] eqn:E1.
+    + symmetry. apply Hin. apply (aget_some_in qname_eqb qname_eqb_eq). exact E1.
+    + destruct (dget d2 k) as [w|] eqn:E2; [|reflexivity]. exfalso.
+      apply (aget_none_notin qname_eqb qname_eqb_eq) in E1. apply E1.
+      assert (incl (map fst d1) (map fst d2)) as Hincl.
+      { intros k' Hk'. apply in_map_iff in Hk'. destruct Hk' as [[k'' v'] [<- Hi]]. cbn.
+        apply (ahas_in qname_eqb qname_eqb_eq). unfold ahas. fold (dget d2 k''). rewrite (Hin k'' v' Hi). reflexivity. }
+      assert (length (map fst d2) <= length (map fst d1)) as Hl by (rewrite !map_length; lia).
+      apply (NoDup_length_incl N1 Hl Hincl k).
+      apply (aget_some_in qname_eqb qname_eqb_eq) in E2. apply (in_map fst) in E2. exact E2.
+  - intros Heq. split.
+    + assert (incl (map fst d1) (map fst d2)) as I12.
+      { intros k Hk. apply (ahas_in qname_eqb qname_eqb_eq). apply (ahas_in qname_eqb qname_eqb_eq) in Hk.
+        unfold ahas in *. fold (dget d2 k). fold (dget d1 k) in Hk. rewrite <- Heq. exact Hk. }
+      assert (incl (map fst d2) (map fst d1)) as I21.
+      { intros k Hk. apply (ahas_in qname_eqb qname_eqb_eq). apply (ahas_in qname_eqb qname_eqb_eq) in Hk.
+        unfold ahas in *. fold (dget d1 k). fold (dget d2 k) in Hk. rewrite Heq. exact Hk. }
+      pose proof (NoDup_incl_length N1 I12) as L1. pose proof (NoDup_incl_length N2 I21) as L2.
+      rewrite !map_length in L1, L2. lia.
+    + intros [k v] Hi. cbn. rewrite <- Heq. unfold dget.
+      rewrite (in_aget_nodup qname_eqb qname_eqb_eq _ _ _ N1 Hi). apply str_eqb_refl.
+Qed.
+
+Lemma abs_nodup s T : Wf s T -> NoDup (map fst (abs_store (st_dns s) (st_store s))).
+Proof.
+  intros W. rewrite abs_store_mapk.
+  apply (mapk_nodup (present (st_dns s)) (fun k => skey_ok (st_dns s) k = true) (present_inj (st_dns s)));
+    [apply (wf_keys s T W)|apply (wf_nodup s T W)].
+Qed.
+
+Theorem attrs_eq_dict s1 s2 :
+  sys_wf (s1, []) = true -> sys_wf (s2, []) = true -> st_dns s2 = st_dns s1 ->
+  exists b, attrs_eq s1 s2 = RBool b /\
+            (b = true <-> dict_equiv (abs_store (st_dns s1) (st_store s1)) (abs_store (st_dns s2) (st_store s2))).
+Proof.
+  intros W1 W2 Hd. apply sys_wf_iff in W1, W2. cbn [fst snd] in W1, W2.
+  eexists. split; [apply (attrs_eq_spec s1 s2 W1 W2 Hd)|].
+  apply dict_eqb_iff; [apply (abs_nodup s1 [] W1)|apply (abs_nodup s2 [] W2)].
+Qed.
+
+(* ------------------------------------------------------------------------------------------ *)
+(* what the specification says about views (the model inherits it on guarded runs by run_refines) *)
+Lemma spec_view_reads_node d i k v h :
+  nth_error (d_views d) i = Some (VLive k) ->
+  snd (dict_step (with_dict d (dset (d_dict d) k v)) (OValue i) h) = RStr v.
+Proof.
+  intros H. cbn [dict_step with_dict d_views d_dict]. rewrite H. cbn [snd]. unfold dget, dset.
+  rewrite (aget_aset_same qname_eqb qname_eqb_eq). reflexivity.
+Qed.
+
+Lemma spec_view_writes_node d i k v h :
+  nth_error (d_views d) i = Some (VLive k) ->
+  dict_step d (OSetValue i v) h = (with_dict d (dset (d_dict d) k v), RNone).
+Proof. intros H. cbn [dict_step]. rewrite H. reflexivity. Qed.
+
+Lemma spec_view_removed d i k v :
+  nth_error (d_views d) i = Some (VLive k) -> dget (d_dict d) k = Some v -> NoDup (map fst (d_dict d)) ->
+  let d' := fst (d_del d k) in
+  dget (d_dict d') k = None /\ nth_error (d_views d') i = Some (VDead v) /\
+  (forall h, snd (dict_step d' (OValue i) h) = RStr v) /\
+  (forall h w, snd (dict_step (fst (dict_step d' (OSetValue i w) h)) (OValue i) h) = RStr w).
+Proof.
+  intros Hi Hv ND. unfold d_del. rewrite Hv. cbn [fst d_dict d_views].
+  assert (nth_error (kill_views k v (d_views d)) i = Some (VDead v)) as Hk.
+  { rewrite kill_views_map, nth_error_map, Hi. cbn. rewrite qname_eqb_refl. reflexivity. }
+  split; [apply (aget_adel_same qname_eqb qname_eqb_eq); exact ND|]. split; [exact Hk|]. split.
+  - intros h. cbn [dict_step d_views]. rewrite Hk. reflexivity.
+  - intros h w. cbn [dict_step d_views]. rewrite Hk. cbn [fst with_views d_views].
+    assert (i < length (kill_views k v (d_views d))) as Hlt by (apply nth_error_Some; rewrite Hk; discriminate).
+    rewrite (nth_error_set_nth_same _ i (VDead w) Hlt). reflexivity.
+Qed.
+
+Lemma spec_view_renamed d i k k' v :
+  nth_error (d_views d) i = Some (VLive k) -> dget (d_dict d) k = Some v -> NoDup (map fst (d_dict d)) ->
+  k <> k' ->
+  let d' := fst (d_rename d i k k') in
+  dget (d_dict d') k' = Some v /\ dget (d_dict d') k = None /\ nth_error (d_views d') i = Some (VLive k') /\
+  (forall h, snd (dict_step d' (OValue i) h) = RStr v).
+Proof.
+  intros Hi Hv ND Hne. unfold d_rename.
+  assert (qname_eqb k k' = false) as E by (apply (eqb_neq qname_eqb qname_eqb_eq); exact Hne).
+  rewrite E, Hv. cbn [fst d_dict d_views].
+  assert (i < length (kill_views k v (d_views d))) as Hlt.
+  { rewrite kill_views_map, map_length. apply nth_error_Some. rewrite Hi. discriminate. }
+  assert (dget (ddel (dset (d_dict d) k' v) k) k' = Some v) as Hg.
+  { unfold dget, ddel, dset. rewrite (aget_adel_other qname_eqb qname_eqb_eq) by exact Hne.
+    apply (aget_aset_same qname_eqb qname_eqb_eq). }
+  split; [exact Hg|]. split.
+  - unfold dget, ddel, dset. apply (aget_adel_same qname_eqb qname_eqb_eq).
+    apply (nodup_aset qname_eqb qname_eqb_eq). exact ND.
+  - split; [apply nth_error_set_nth_same; exact Hlt|].
+    intros h. cbn [dict_step d_views d_dict]. rewrite (nth_error_set_nth_same _ i (VLive k') Hlt).
+    cbn [snd]. rewrite Hg. reflexivity.
+Qed.
+
+Lemma abs_views_length y : length (d_views (abs_sys y)) = length (snd y).
+Proof. destruct y as [s T]. cbn. apply map_length. Qed.
+
+Lemma abs_nodup_sys y : sys_wf y = true -> NoDup (map fst (d_dict (abs_sys y))).
+Proof. intros W. apply sys_wf_iff in W. destruct y as [s T]. cbn [fst snd] in W. apply (abs_nodup s T W). Qed.
+
+(* the model: an object obtained earlier keeps its last value once its entry is removed (inside the guard) *)
+Theorem view_keeps_value y a i k v :
+  sys_wf y = true -> step_safe y (ODel a) = true -> acc_key (abs_sys y) a = Some k ->
+  nth_error (d_views (abs_sys y)) i = Some (VLive k) -> dget (d_dict (abs_sys y)) k = Some v ->
+  snd (sys_run y [ODel a; OValue i]) = [RNone; RStr v].
+Proof.
+  intros W Hs Hk Hi Hv.
+  destruct (refines_all y (ODel a) W Hs) as [W1 [r1 [H1 A1]]].
+  cbn [sys_run]. destruct (sys_step y (ODel a)) as [y1 o1] eqn:E1. cbn [fst snd] in *.
+  cbn [dict_step] in H1. unfold with_k in H1. rewrite Hk in H1.
+  destruct (spec_view_removed (abs_sys y) i k v Hi Hv (abs_nodup_sys y W)) as [_ [Hd [Hval _]]].
+  assert (r1 = RNone /\ abs_sys y1 = fst (d_del (abs_sys y) k)) as [-> Hab].
+  { unfold d_del in *. rewrite Hv in *. inversion H1. split; reflexivity. }
+  assert (o1 = RNone) as -> by (destruct A1 as [A|A]; [discriminate|symmetry; exact A]).
+  assert (step_safe y1 (OValue i) = true) as Hs2.
+  { destruct y1 as [s1 T1]. cbn [step_safe]. apply Nat.ltb_lt.
+    pose proof (abs_views_length (s1, T1)) as HL. cbn [snd] in HL. rewrite <- HL, Hab.
+    apply nth_error_Some. rewrite Hd. discriminate. }
+  destruct (refines_all y1 (OValue i) W1 Hs2) as [_ [r2 [H2 A2]]].
+  destruct (sys_step y1 (OValue i)) as [y2 o2] eqn:E2. cbn [fst snd] in *.
+  rewrite Hab in H2. specialize (Hval (hint_of o2)). rewrite H2 in Hval. cbn [snd] in Hval. subst r2.
+  destruct A2 as [A|A]; [discriminate|]. rewrite <- A. reflexivity.
+Qed.
